@@ -8,7 +8,8 @@ from common import import_qib, cq, q, uncq
 
 ANGLES = [0.0, math.pi / 2, -math.pi / 2, math.pi, -math.pi, 2 * math.pi, math.pi / 4, 3 * math.pi / 4, 1e-300, 1e-9, 1e6 + 0.25, 1e12, -7.5]
 VECS = [(0.0, 0.0, 0.0), (1.0, 0.0, 0.0), (0.0, -2.0, 0.0), (0.0, 0.0, math.pi), (1e-200, 0.0, 0.0), (3.0, -4.0, 12.0),
-        (0.0, 0.0, 2 * math.pi), (4.0, -3.0, 5.0), (9.0, 2.0, -6.0), (0.0, 4 * math.pi, 0.0), (-7.0, 0.0, 0.0)]   # incl. |v| >= 2 pi (spin-1/2 rotations are 4 pi periodic)
+        (0.0, 0.0, 2 * math.pi), (4.0, -3.0, 5.0), (9.0, 2.0, -6.0), (0.0, 4 * math.pi, 0.0), (-7.0, 0.0, 0.0),
+        (1.7e9, 0.0, 0.0), (0.0, 0.0, 2.1e10), (1.6e9, 1.6e9, 0.0), (3e11, -4e11, 0.0), (0.0, 7.3e11, 1.0)]   # incl. |v| >= 2 pi (spin-1/2 rotations are 4 pi periodic)
 
 _ctx = {}
 
